@@ -203,17 +203,28 @@ def sampling(tier, rng, rep):
         # --- eigenvector / diagonalize
         cplx = bool(t % 2)
         M = rng.normal(size=(n + 1, n + 1)) + (1j * rng.normal(size=(n + 1, n + 1)) if cplx else 0)
+        # structured matrices: symmetric (real, and complex symmetric which is NOT Hermitian), complex diagonal, Hermitian
+        struct = ["generic", "symmetric", "complex_diagonal", "hermitian", "generic", "symmetric"][t % 6]
+        if struct == "symmetric":
+            M = M + M.T
+        elif struct == "complex_diagonal":
+            M = np.diag(rng.normal(size=n + 1) + 1j * rng.normal(size=n + 1))
+        elif struct == "hermitian":
+            M = M + np.conjugate(M.T)
         T = pr.Transformation(M.copy())
         ev, _ = np.linalg.eig(M.T)
         lam = ev[int(rng.integers(0, n + 1))]
         inp = {"n": n, "M_re": M.real.tolist(), "M_im": np.imag(M).tolist(), "eigenvalue": [lam.real, lam.imag]}
-        v = T.eigenvector(lam).proj_data
-        img = (T @ pr.Point(v.copy())).proj_data
-        if not np.all(np.abs(img - lam * v) <= 1e-7 * (1 + np.max(np.abs(M))) * max(1.0, np.max(np.abs(v)))) or np.max(np.abs(v)) == 0:
-            rep.fail("eigenvector", "T @ v != lambda v", inp)
-        D = T.diagonalize()
-        Dm = (D.inv() @ T @ D).proj_data if False else None
-        C, Cinv = T.diagonalize(return_inv=True)
+        v = rep.attempt("eigenvector_runs", inp, lambda: T.eigenvector(lam).proj_data)       # (a true eigenvalue must not be refused)
+        if v is not None:
+            img = (T @ pr.Point(v.copy())).proj_data
+            if not np.all(np.abs(img - lam * v) <= 1e-7 * (1 + np.max(np.abs(M))) * max(1.0, np.max(np.abs(v)))) or np.max(np.abs(v)) == 0:
+                rep.fail("eigenvector", "T @ v != lambda v", inp)
+        res_d = rep.attempt("diagonalize_runs", inp, lambda: T.diagonalize(return_inv=True))
+        if res_d is None:
+            rep.case(key=("eig", t))
+            continue
+        C, Cinv = res_d
         # frame rows are eigenvectors (row convention): C.matrix @ M = diag @ C.matrix
         cm = C.proj_data
         prod = cm @ M @ np.linalg.inv(cm)
